@@ -24,6 +24,9 @@ RULE = ("(a) generated IR programs traced on the recorder, then their interface-
 P = backends.FIELDS["snarkjs"]
 
 
+LIGHT_OPS = [n for n in ir.OPS if n not in ("poseidon", "poseidon1", "permute", "ggh")]
+
+
 def lcmap(terms, p):
     m = {}
     for w, c in terms:
@@ -127,7 +130,8 @@ def shard(seed, n_examples, programs):
             if programs:
                 cfg = ir.gen_cfg(draw, st, small_ok=False)
                 cfg["p"] = "bn128"
-                m, labels = ir.generate(draw, st, cfg, draw(st.integers(1, 8)))
+                cfg["b"] = min(cfg["b"], 32)     # file encoding is judged here: hash gadgets and 64-bit comparisons only add bulk
+                m, labels = ir.generate(draw, st, cfg, draw(st.integers(1, 8)), ops=LIGHT_OPS)
                 trace = backends.trace_from_recorder(m.ns.rec.snapshot())
                 lab = ("source:program",)
             else:
